@@ -1,0 +1,16 @@
+// Copyright (c) 2025, Peter Ohler, All rights reserved.
+
+package slip
+
+import "strings"
+
+// SameTag returns true if a form in the body of a tagbody, prog, or one of
+// the do loops is the tag a go names. Symbols are not case sensitive.
+func SameTag(form, tag Object) bool {
+	if fs, ok := form.(Symbol); ok {
+		if ts, ok2 := tag.(Symbol); ok2 {
+			return strings.EqualFold(string(fs), string(ts))
+		}
+	}
+	return form == tag
+}
